@@ -63,19 +63,65 @@ def quiet():
 
 # ------------------------------------------------------------------ constraint text generator
 
+_REL = {}
+
+
+def relations(nts):
+    """child / descendant relations of the schema grammar that declares these nonterminals
+    (the front end rejects selectors that can never match)"""
+    key = tuple(nts)
+    if key in _REL:
+        return _REL[key]
+    import re as _re
+    spec = next(sp for sp, ns in SCHEMAS + EXTRA_SCHEMAS if tuple(ns) == key)
+    child = {}
+    for line in spec.strip().split("\n"):
+        lhs, rhs = line.split("::=")
+        child[lhs.strip()] = set(_re.findall(r"<[a-z0-9_]+>", rhs))
+    desc = {k: set(v) for k, v in child.items()}
+    changed = True
+    while changed:
+        changed = False
+        for k in desc:
+            for c in list(desc[k]):
+                new = desc.get(c, set()) - desc[k]
+                if new:
+                    desc[k] |= new
+                    changed = True
+    _REL[key] = (child, desc)
+    return _REL[key]
+
+
+EXTRA_SCHEMAS = []
+
+
 def gen_selector(rng, nts, base=None, depth=None):
+    child, desc = relations(nts)
     s = base or rng.choice(nts)
-    for _ in range(rng.choice([0, 1, 1, 2, 3]) if depth is None else depth):
+    cur = None if (base and base not in child) else s     # bound variables: symbol unknown here
+    if base and base not in child:
+        return s if rng.random() < 0.6 else s + f"[{rng.choice([0, -1, 1])}]"
+    steps = rng.choice([0, 1, 1, 2, 3]) if depth is None else depth
+    indexed = False
+    for _ in range(steps):
         r = rng.random()
-        if r < 0.4:
-            s += "." + rng.choice(nts)
-        elif r < 0.7:
-            s += ".." + rng.choice(nts)
-        elif r < 0.88:
+        if r < 0.4 and child.get(cur):
+            cur = rng.choice(sorted(child[cur]))
+            s += "." + cur
+            indexed = False
+        elif r < 0.7 and desc.get(cur):
+            cur = rng.choice(sorted(desc[cur]))
+            s += ".." + cur
+            indexed = False
+        elif r < 0.88 and not indexed:
             s += f"[{rng.choice([0, 0, 1, -1, 2, 5])}]"
-        else:
+            indexed = True
+            if rng.random() < 0.7:
+                break
+        elif not indexed:
             lo, hi = rng.choice([("", "2"), ("1", ""), ("0", "1"), ("-2", ""), ("1", "3")])
             s += f"[{lo}:{hi}]"
+            break
     return s
 
 
